@@ -237,9 +237,12 @@ def feeBack (b : Bid) (cq : Nat) : Option Nat :=
   match b.fee with
   | none => some 0
   | some f =>
-    match Dec.feeFor f.amount b.quote.amount (b.remQuote - cq) with
-    | .ok need => if need ≤ b.remFee then some (b.remFee - need) else none
-    | .err _ => none
+    -- nothing of the quote stays on the book: the whole fee still held is no longer needed
+    if b.remQuote - cq = 0 then some b.remFee
+    else
+      match Dec.feeFor f.amount b.quote.amount (b.remQuote - cq) with
+      | .ok need => if need ≤ b.remFee then some (b.remFee - need) else none
+      | .err _ => none
 
 def bidReversePays (b : Bid) (c : Nat) : Option (List (String × String × Nat)) :=
   match Dec.parse b.price with
